@@ -20,6 +20,8 @@ def record(cases):
         ev.extend(rc.path_events(3, g, 0))
         if (len(g) + sum(e[2] for e in g)) % 4 == 0:
             ev.extend(rc.path_events_edited(3, g, 0))
+        if (len(g) + sum(e[2] for e in g)) % 4 == 1:
+            ev.extend(rc.path_events_dup(3, g, 0))
     return len(cases), [], set(), ev
 
 
@@ -32,6 +34,8 @@ def _rand(args):
         ev.extend(rc.path_events(n, g, 0))
         if rnd.random() < 0.3:
             ev.extend(rc.path_events_edited(n, g, 0))
+        if rnd.random() < 0.3:
+            ev.extend(rc.path_events_dup(n, g, 0))
     return ev
 
 
@@ -41,7 +45,7 @@ def run(ctx):
                 "0,1,2, three orientations, self loops, parallel edges; every edge has a 4-vertex geometry) + random graphs to 12 "
                 "nodes / 40 edges; each returned path judged by AcceptPath. Non-trivial = reachable pair whose graph has a zero "
                 "weight, a reverse-only edge or parallel edges (distinct (graph, pair)).")
-    ctx.assumptions += ["edge geometries run from the stored source to the stored target with two interior vertices that identify the edge"]
+    ctx.assumptions += ["edge geometries run from the stored source to the stored target with two interior vertices that identify the edge (in a share of the graphs every third edge records its first interior vertex twice: the pair stands for the vertex)"]
     c = ctx.write_cfg("R_algo.cfg", cfg(3, 2, "algo", False))
     ctx.tlc_mc("Routing", c, label="Dijkstra state machine = Bellman-Ford definition (2 edges)")
     c = ctx.write_cfg("R_table.cfg", cfg(3, 3, "table", True, inv=False))
